@@ -17,7 +17,7 @@ def make_cases(chk):
     rng = chk.rng
     quick = chk.tier == "quick"
     cases = []
-    n = 260 if quick else 5000
+    n = 260 if quick else 20000
     for i in range(n):
         fam = i % 4
         if fam == 0:      # elimination-centred histories
